@@ -464,11 +464,16 @@ def check_e2e(case: dict) -> Verdict:
 # ---------------------------------------------------------------------------- Atheris campaign
 
 
-def run_atheris(tier: str, seed: int, shard) -> dict:
+def run_atheris_structured(tier: str, seed: int, shard) -> dict:
+    return run_atheris(tier, seed, shard, target="c20_hypo_target.py", runs=(12_000 if tier == "quick" else 400_000), tag="structured")
+
+
+def run_atheris(tier: str, seed: int, shard, target: str = "c20_target.py", runs: int | None = None, tag: str = "bytes") -> dict:
     """One libFuzzer campaign per shard (own corpus dir); a crash file is the replay unit."""
     sh, nsh = shard
-    runs = 150_000 if tier == "quick" else 4_000_000
-    work = ROOT / ".work" / "C20" / f"atheris-{sh}"
+    if runs is None:
+        runs = 150_000 if tier == "quick" else 4_000_000
+    work = ROOT / ".work" / "C20" / f"atheris-{tag}-{sh}"
     if work.exists():
         import shutil
 
@@ -476,12 +481,12 @@ def run_atheris(tier: str, seed: int, shard) -> dict:
     work.mkdir(parents=True)
     corpus = work / "corpus"
     corpus.mkdir()
-    seeded = sh % 2 == 0  # half of the shards start from valid examples, half from the empty corpus
+    seeded = sh % 2 == 0 and tag == "bytes"  # half of the shards start from valid examples, half from the empty corpus
     if seeded:
         for i, s in enumerate(["120", "Wed, 21 Oct 2015 07:28:00 GMT", "Wed, 21 Oct 2015 07:28:00", "-5", " 7 ", "Sunday, 06-Nov-94 08:49:37 GMT", "Sun Nov  6 08:49:37 1994"]):
             (corpus / f"seed{i}").write_text(s)
     env = dict(os.environ)
-    cmd = [sys.executable, str(ROOT / "fuzz" / "c20_target.py"), f"-runs={runs}", f"-seed={seed * 100 + sh + 1}", "-max_len=128", f"-artifact_prefix={work}/crash-", "-print_final_stats=1", str(corpus)]
+    cmd = [sys.executable, str(ROOT / "fuzz" / target), f"-runs={runs}", f"-seed={seed * 100 + sh + 1}", "-max_len=128", f"-artifact_prefix={work}/crash-", "-print_final_stats=1", str(corpus)]
     r = subprocess.run(cmd, capture_output=True, text=True, env=env, timeout=3600)
     text = r.stdout + r.stderr
     execs = 0
@@ -492,11 +497,11 @@ def run_atheris(tier: str, seed: int, shard) -> dict:
     m = re.findall(r"cov: (\d+)", text)
     if m:
         cov = int(m[-1])
-    out = dict(evaluations=execs, cases=execs, nontrivial=[], classes={f"atheris-{'seeded' if seeded else 'empty'}-corpus": execs}, samples=[], failures=[], excluded={}, errors=[])
-    out["extra"] = {"shard": sh, "corpus": "seeded" if seeded else "empty", "execs": execs, "coverage_edges": cov, "corpus_files": len(list(corpus.iterdir()))}
+    out = dict(evaluations=execs, cases=execs, nontrivial=[], classes={f"atheris-{tag}-{'seeded' if seeded else 'empty'}-corpus": execs}, samples=[], failures=[], excluded={}, errors=[])
+    out["extra"] = {"shard": sh, "target": target, "corpus": "seeded" if seeded else "empty", "execs": execs, "coverage_edges": cov, "corpus_files": len(list(corpus.iterdir()))}
     # corpus entries are distinct inputs that reached new coverage: count them as the distinct non-trivial cases
     for i, f in enumerate(sorted(corpus.iterdir())):
-        out["nontrivial"].append(["atheris", sh, i])
+        out["nontrivial"].append(["atheris-" + tag, sh, i])
         if len(out["samples"]) < 2:
             out["samples"].append({"atheris_corpus_entry": f.read_bytes()[:64].decode("latin-1")})
     crashes = sorted(work.glob("crash-*"))
@@ -521,7 +526,8 @@ PROP = Property(
         "(exc.retry_after, dict with any key casing, list of pairs, .get-only and .get+.items objects, response.headers, a "
         "container that raises) x status via status/status_code/code/args; exhaustive digit-string lengths 1..600 (quick) / "
         "1..5000 (thorough) and powers of ten up to 10**413 as int attribute; Atheris (coverage-guided, libFuzzer) campaigns on "
-        "the header string with the same oracle inside the target, from seeded and empty corpora; end-to-end policies using "
+        "the header string with the same oracle inside the target, from seeded and empty corpora, plus campaigns that drive the "
+        "structured Hypothesis generator through fuzz_one_input (libFuzzer mutates the choice sequence); end-to-end policies using "
         "http_retry_after_classifier + retry_after_or on a virtual clock with a generated jitter draw. Oracle: never raises; "
         "result is an ErrorClass or a Classification whose retry_after_s is a float >= 0; ASCII decimal integer n within float "
         "range gives exactly float(max(n,0)); a date gives max(0, date - now) bracketed by real clock readings before/after "
@@ -537,5 +543,6 @@ PROP = Property(
         Stream("digit_lengths", check_parse, enum=enum_digit_lengths, quick=1, thorough=1, exhaustive=True),
         Stream("end_to_end", check_e2e, strategy=e2e_case(), quick=8000, thorough=200000),
         Stream("atheris", check_parse, custom=run_atheris, quick=1, thorough=1, shards=8),
+        Stream("atheris_structured", check_parse, custom=run_atheris_structured, quick=1, thorough=1, shards=4),
     ],
 )
